@@ -90,19 +90,14 @@ theorem C18_read_after_write (t t' : Node) (p : P) (s : Str) (v : Val)
     readBytes t' p = .ok (.bytes (utf8Encode s)) ∧
     (∀ q, q <+: p.comps → q ≠ p.comps → stat t' q = some .dir) ∧
     (∀ q, ¬ q <+: p.comps → stat t' q = stat t q) := by
-  obtain ⟨htr, hold, content, hp, _, _⟩ := writeGen_ok h
+  obtain ⟨htr, hold, content, hp, h1, h2⟩ := writeGen_ok h
   have hc : content = utf8Encode s := by
-    obtain ⟨_, _, c2, hp2, h1, h2⟩ := writeGen_ok h
     cases hl : lookup t p.comps with
-    | none =>
-      have := h2 hl
-      rw [hp] at hp2; cases hp2; exact this
+    | none => exact h2 hl
     | some n =>
       cases n with
       | dir es => exact absurd hl (hold es)
-      | file old =>
-        have := h1 old hl
-        rw [hp] at hp2; cases hp2; simpa using this
+      | file old => simpa using h1 old hl
   subst hc
   have hr := writeGen_read htr hp
   refine ⟨?_, ?_, ?_, ?_⟩
@@ -196,7 +191,7 @@ theorem C18_cp_file (t t' : Node) (src dst : P) (v : Val)
         obtain ⟨r, hr⟩ := h1
         have hr' : r ≠ [] := by
           intro e; subst e; simp at hr; exact h2 hr
-        rw [← heq, ← hr] at hl
+        rw [heq, ← hr] at hl
         obtain ⟨es, he⟩ := lookup_prefix_dir hl hr'
         simp [stat, he, Node.obs]
       · next hne =>
@@ -220,5 +215,297 @@ theorem C18_cp_file (t t' : Node) (src dst : P) (v : Val)
             · simpa [Node.obs] using stat_putAt_self hp
             · intro q h1 h2; exact stat_putAt_prefix hp q h1 h2
           · cases h
+
+/-! ### move = copy then delete -/
+
+namespace FsTree
+
+theorem mvTargetIsFile_not_dir {t : Node} {dst : P} (h : mvTargetIsFile t dst = true) :
+    ∀ es, lookup t dst.comps ≠ some (.dir es) := by
+  intro es he
+  unfold mvTargetIsFile at h
+  have hr : resolve t dst = some (.dir es) := by simp [resolve, he]
+  simp [hr, Node.isFile] at h
+
+/-- with `src` a file and `target` neither below nor above it, the file survives a `putAt` -/
+theorem src_survives {t t2 : Node} {src : P} {target : List Str} {b : Bytes}
+    (hl : lookup t src.comps = some (.file b)) (htr : src.trail = false)
+    (hp : putAt t target (.file b) = some t2) (hne : src.comps ≠ target)
+    (hnd : ∀ es, lookup t target ≠ some (.dir es)) :
+    resolve t2 src = some (.file b) := by
+  have h1 : ¬ src.comps <+: target := by
+    rintro ⟨r, hr⟩
+    have hr' : r ≠ [] := by
+      intro e; subst e; simp at hr; exact hne hr
+    have := putAt_file_prefix_none hl r hr' (.file b)
+    rw [hr, hp] at this
+    cases this
+  have h2 : ¬ target <+: src.comps := by
+    rintro ⟨r, hr⟩
+    have hr' : r ≠ [] := by
+      intro e; subst e; simp at hr; exact hne hr.symm
+    rw [← hr] at hl
+    obtain ⟨es, he⟩ := lookup_prefix_dir hl hr'
+    exact hnd es he
+  have := lookup_putAt_incomp hp src.comps h1 h2
+  exact resolve_of_lookup_file (this.trans hl) htr
+
+end FsTree
+
+/-- PARTIAL (file sources only; directory sources are outside the property's domain):
+    a successful `mv src dst` of a file leaves exactly the tree of "copy to the target the
+    code's rule selects, then delete the source".  The target is `dst` itself when `dst` is an
+    existing file, or is missing, has no trailing separator and its name has an extension
+    ("move to file"); otherwise it is `dst/<basename of src>` ("move into the — possibly new —
+    directory `dst`").  The copy succeeds and the delete succeeds. -/
+theorem C18_mv_eq_cp_rm_partial (t t' : Node) (src dst : P) (v : Val)
+    (h : mv t src dst = (t', .ok v)) :
+    let target : P := { comps := mvTarget t src dst, trail := false }
+    (cp t src target).2 = .ok .unit ∧
+    rm (cp t src target).1 false src = (t', .ok .unit) := by
+  intro target
+  unfold mv at h
+  split at h
+  · cases h
+  · cases h
+  · next b hres =>
+    obtain ⟨hl, htr⟩ := resolve_file hres
+    split at h
+    · next hfile =>
+      -- move to file
+      have htarget : target = { comps := dst.comps, trail := false } := by
+        simp [target, mvTarget, hfile]
+      have hnd := mvTargetIsFile_not_dir hfile
+      split at h
+      · next t1 hp =>
+        cases h
+        rw [htarget]
+        by_cases heq : src.comps = dst.comps
+        · have ht1 : t1 = t := by
+            have := putAt_id hl
+            rw [heq, hp] at this
+            exact (Option.some.inj this)
+          subst ht1
+          simp [cp, hres, heq, rm, Node.isFile]
+        · have hcp : cp t src { comps := dst.comps, trail := false } = (t1, .ok .unit) := by
+            unfold cp
+            simp only [hres, heq, hp]
+            cases hd : lookup t dst.comps with
+            | none => simp
+            | some n =>
+              cases n with
+              | file x => simp
+              | dir es => exact absurd hd (hnd es)
+          have hsv := src_survives hl htr hp heq hnd
+          simp [hcp, rm, hsv]
+      · cases h
+    · next hfile =>
+      -- move into the directory dst
+      split at h
+      · cases h
+      · next t1 hmk =>
+        split at h
+        · cases h
+        · next hnone =>
+          split at h
+          · next t2 hp =>
+            cases h
+            have hshape : mvTarget t src dst = dst.comps ++ src.comps.getLast?.toList := by
+              simp [mvTarget, hfile]
+            have hp' : putAt t (mvTarget t src dst) (.file b) = some t2 := by
+              rw [hshape, ← putAt_mkdirs hmk]; rw [← hshape]; exact hp
+            have hnone' : lookup t (mvTarget t src dst) = none := by
+              cases hq : lookup t (mvTarget t src dst) with
+              | none => rfl
+              | some n =>
+                obtain ⟨n', hn'⟩ := lookup_mkdirs_some hmk hq
+                rw [hnone] at hn'; cases hn'
+            have hne : src.comps ≠ mvTarget t src dst := by
+              intro e; rw [← e, hl] at hnone'; cases hnone'
+            have hnd : ∀ es, lookup t (mvTarget t src dst) ≠ some (.dir es) := by
+              intro es e; rw [hnone'] at e; cases e
+            have hcp : cp t src target = (t2, .ok .unit) := by
+              unfold cp
+              simp [target, hres, hne, hp', hnone']
+            have hsv := src_survives hl htr hp' hne hnd
+            simp [hcp, rm, hsv]
+          · cases h
+
+/-! ### delete -/
+
+/-- a successful `rm [-r] p`: when nothing is at `p` the tree is unchanged; otherwise exactly
+    the named path disappears — nothing is observed at `p` or below it any more, and the
+    observation at every path outside `p`'s subtree is what it was -/
+theorem C18_rm_exact (t t' : Node) (r : Bool) (p : P) (v : Val) (hp : p.comps ≠ [])
+    (h : rm t r p = (t', .ok v)) :
+    (resolve t p = none → t' = t) ∧
+    (resolve t p ≠ none →
+      (∀ r', stat t' (p.comps ++ r') = none) ∧
+      (∀ q, ¬ p.comps <+: q → stat t' q = stat t q)) := by
+  unfold rm at h
+  split at h
+  · next hn => cases h; exact ⟨fun _ => rfl, fun hne => absurd hn hne⟩
+  · next b hb =>
+    cases h
+    refine ⟨fun hn => (by rw [hb] at hn; cases hn), fun _ => ⟨?_, ?_⟩⟩
+    · intro r'; simp [stat, lookup_removeAt_below t p.comps hp r']
+    · intro q hq; exact stat_removeAt_other t p.comps q hq
+  · next es hd =>
+    split at h
+    · cases h
+      refine ⟨fun hn => (by rw [hd] at hn; cases hn), fun _ => ⟨?_, ?_⟩⟩
+      · intro r'; simp [stat, lookup_removeAt_below t p.comps hp r']
+      · intro q hq; exact stat_removeAt_other t p.comps q hq
+    · cases h
+
+/-- a non-empty directory goes only with `-r`: plain `rm` and `rmdir` fail and leave the tree
+    as it is, `rm -r` removes it -/
+theorem C18_rm_nonempty_needs_r (t : Node) (p : P) (es : Entries)
+    (hd : resolve t p = some (.dir es)) (hne : es.isEmpty = false) :
+    rm t false p = (t, .err) ∧ rmdir t p = (t, .err) ∧
+    rm t true p = (removeAt t p.comps, .ok .unit) := by
+  simp [rm, rmdir, hd, hne]
+
+/-- … while an EMPTY directory is removed by all three -/
+theorem C18_rm_empty_dir (t : Node) (p : P) (es : Entries)
+    (hd : resolve t p = some (.dir es)) (he : es.isEmpty = true) :
+    rm t false p = (removeAt t p.comps, .ok .unit) ∧
+    rmdir t p = (removeAt t p.comps, .ok .unit) := by
+  simp [rm, rmdir, hd, he]
+
+/-! ### a failing operation leaves the tree unchanged -/
+
+/-- every command that reports a failure (`err`: output `false` or an error) leaves the tree
+    EQUAL — for all sixteen commands, in every tree -/
+theorem C18_failed_op_unchanged (t : Node) (op : Op) (h : (step t op).2 = .err) :
+    (step t op).1 = t := by
+  cases op <;> simp only [step] at h ⊢
+  case writeText p s =>
+    unfold writeText writeGen at h ⊢
+    repeat' split <;> simp_all
+  case appendText p s =>
+    unfold appendText writeGen at h ⊢
+    repeat' split <;> simp_all
+  case writeBytes p b =>
+    unfold writeBytes writeGen at h ⊢
+    repeat' split <;> simp_all
+  case touch p =>
+    unfold touch at h ⊢
+    repeat' split <;> simp_all
+  case mkdir p =>
+    unfold mkdir at h ⊢
+    repeat' split <;> simp_all
+  case cp s d =>
+    unfold cp at h ⊢
+    repeat' split <;> simp_all
+  case mv s d =>
+    unfold mv at h ⊢
+    repeat' split <;> simp_all
+  case rm r p =>
+    unfold rm at h ⊢
+    repeat' split <;> simp_all
+  case rmdir p =>
+    unfold rmdir at h ⊢
+    repeat' split <;> simp_all
+
+/-- the same for a command outside the domain (directory source of cp / mv): not modelled,
+    tree untouched -/
+theorem C18_skipped_op_unchanged (t : Node) (op : Op) (h : (step t op).2 = .skip) :
+    (step t op).1 = t := by
+  cases op <;> simp only [step] at h ⊢
+  case writeText p s =>
+    unfold writeText writeGen at h ⊢
+    repeat' split <;> simp_all
+  case appendText p s =>
+    unfold appendText writeGen at h ⊢
+    repeat' split <;> simp_all
+  case writeBytes p b =>
+    unfold writeBytes writeGen at h ⊢
+    repeat' split <;> simp_all
+  case touch p =>
+    unfold touch at h ⊢
+    repeat' split <;> simp_all
+  case mkdir p =>
+    unfold mkdir at h ⊢
+    repeat' split <;> simp_all
+  case cp s d =>
+    unfold cp at h ⊢
+    repeat' split <;> simp_all
+  case mv s d =>
+    unfold mv at h ⊢
+    repeat' split <;> simp_all
+  case rm r p =>
+    unfold rm at h ⊢
+    repeat' split <;> simp_all
+  case rmdir p =>
+    unfold rmdir at h ⊢
+    repeat' split <;> simp_all
+
+/-! ### basename / dirname / join_path -/
+
+/-- laws of the path-string functions: for a normal name `b` (no separator, not `.`/`..`),
+    `basename (d/b) = b` for EVERY `d`; `dirname (d/b) = d` whenever `d` is not empty and does
+    not end in a separator or `/.`; `join_path` never leaves a `//` and changes nothing when
+    there was none -/
+theorem C18_path_functions :
+    (∀ d b, PlainName b → basename (d ++ '/' :: b) = some b) ∧
+    (∀ d b, PlainName b → d ≠ [] → CleanEnd d → dirname (d ++ '/' :: b) = some d) ∧
+    (∀ args, hasDouble (joinPath args) = false) ∧
+    (∀ args, hasDouble (joinSlash args) = false → joinPath args = joinSlash args) :=
+  ⟨basename_join, dirname_join, fun args => hasDouble_squeeze _, fun args h => squeeze_id _ h⟩
+
+/-! ### non-vacuity: a concrete 3-level tree `a/b/c/f.txt` -/
+
+namespace FsTree.Example
+
+def t3 : Node :=
+  .dir (.cons "a".toList (.dir (.cons "b".toList (.dir (.cons "c".toList
+    (.dir (.cons "f.txt".toList (.file [104, 105]) .nil)) .nil)) .nil)) .nil)
+
+def f : P := { comps := ["a".toList, "b".toList, "c".toList, "f.txt".toList] }
+def a : P := { comps := ["a".toList] }
+
+-- the tree is what the commands build from the empty directory
+example : ((run FsTree.empty [.mkdir { comps := ["a".toList, "b".toList, "c".toList] },
+    .writeText f "hi".toList]).map (·.1)) = [.ok .unit, .ok .unit] := by decide
+example : stat t3 f.comps = some (.file [104, 105]) := by decide
+
+-- read after write with new parents, non-ASCII text
+example : (writeText t3 { comps := ["a".toList, "n".toList, "é.txt".toList] } "héllo".toList).2
+    = .ok .unit := by decide
+-- append to an existing file
+example : (appendText t3 f "!".toList).2 = .ok .unit ∧
+    readBytes (appendText t3 f "!".toList).1 f = .ok (.bytes [104, 105, 33]) := by decide
+-- copy creates x/y
+example : (cp t3 f { comps := ["x".toList, "y".toList, "g.txt".toList] }).2 = .ok .unit ∧
+    stat (cp t3 f { comps := ["x".toList, "y".toList, "g.txt".toList] }).1 ["x".toList, "y".toList]
+      = some .dir := by decide
+-- the three shapes of mv: into an existing directory, to a file name, into a new directory
+example : (mv t3 f a).2 = .ok .unit ∧ mvTarget t3 f a = ["a".toList, "f.txt".toList] := by decide
+example : (mv t3 f { comps := ["z.md".toList] }).2 = .ok .unit ∧
+    mvTarget t3 f { comps := ["z.md".toList] } = ["z.md".toList] := by decide
+example : (mv t3 f { comps := ["new".toList] }).2 = .ok .unit ∧
+    mvTarget t3 f { comps := ["new".toList] } = ["new".toList, "f.txt".toList] ∧
+    stat (mv t3 f { comps := ["new".toList] }).1 f.comps = none := by decide
+-- rm: non-empty directory only with -r
+example : (rm t3 false a).2 = .err ∧ (rm t3 true a).2 = .ok .unit ∧
+    stat (rm t3 true a).1 f.comps = none := by decide
+-- failing operations (a file among the ancestors; a directory where a file is expected;
+-- trailing separator)
+example : (writeText t3 { comps := f.comps ++ ["x".toList] } "t".toList).2 = .err := by decide
+example : (writeText t3 a "t".toList).2 = .err ∧ (touch t3 a).2 = .err ∧
+    (mkdir t3 f).2 = .err ∧ (writeText t3 { comps := ["q".toList, "r".toList], trail := true } []).2 = .err := by
+  decide
+-- path strings
+example : basename "a/b/f.txt".toList = some "f.txt".toList ∧
+    dirname "a/b/f.txt".toList = some "a/b".toList ∧
+    joinPath ["a/".toList, "/b".toList] = "a/b".toList := by decide
+example : PlainName "f.txt".toList ∧ CleanEnd "a/b".toList := by
+  refine ⟨⟨by decide, by decide, by decide, by decide⟩, ?_⟩
+  intro x hx
+  have : (splitSlash "a/b".toList).getLast? = some "b".toList := by decide
+  rw [this] at hx; cases hx; decide
+
+end FsTree.Example
 
 end Duck
